@@ -598,9 +598,15 @@ class Interp:
         mgrs = []
         for item in s.items:
             m = self.eval(item.context_expr, fr)
-            if not (isinstance(m, SObj) and "__enter__" in m.f and "__exit__" in m.f):
+            if not isinstance(m, SObj):
                 raise SymError("with statement over an unmodelled context manager")
-            v = m.f["__enter__"].__sym_call__(self, [], {}, item.context_expr)
+            if "__enter__" in m.f and "__exit__" in m.f:
+                v = m.f["__enter__"].__sym_call__(self, [], {}, item.context_expr)
+            elif m.cls is not None and hasattr(m.cls, "__enter__") and hasattr(m.cls, "__exit__") and getattr(m.cls, "__module__", "").startswith("pdfminer"):
+                # a context manager class of the repository: its own __enter__/__exit__ are executed
+                v = self.call(self.getattr(m, "__enter__", item.context_expr), [], {}, item.context_expr, fr)
+            else:
+                raise SymError("with statement over an unmodelled context manager")
             if item.optional_vars is not None:
                 self.assign(item.optional_vars, v, fr)
             mgrs.append((m, item.context_expr))
@@ -611,7 +617,10 @@ class Interp:
             et = _sys.exc_info()[0]
             if et is None or et in (SymRaise, _Return, _Break, _Continue):
                 for m, nd in reversed(mgrs):
-                    m.f["__exit__"].__sym_call__(self, [None, None, None], {}, nd)
+                    if "__exit__" in m.f:
+                        m.f["__exit__"].__sym_call__(self, [None, None, None], {}, nd)
+                    else:
+                        self.call(self.getattr(m, "__exit__", nd), [None, None, None], {}, nd, fr)
 
     # -- loops ----------------------------------------------------------------------
     def loop_spec(self, node, fr):
